@@ -158,6 +158,33 @@ def terms(v):
     raise Unsupported(f"result {v!r}")
 
 
+
+def operator_table_obligations(chk, e, tag="", only=None):
+    """binary_table / unary_table of expr_checker (real module-level tables): every operator is bound to
+    the dunder Python uses and to the REFLECTED dunder Python uses.  Shared with C16: when the left
+    operand of a mixed comparison / arithmetic expression is the narrower one, the reflected entry is
+    what widens it (`a <= b` becomes `b.__ge__(convert(a))`), so a wrong reflected name silently
+    changes the meaning of widened operands."""
+    EC = "guppylang_internals.checker.expr_checker"
+
+    def t_tables(it):
+        m = e.module(EC)
+        return it.lookup_global(m, "binary_table"), it.lookup_global(m, "unary_table")
+    paths = e.explore(t_tables)
+    if paths and paths[0].kind == "return":
+        bt, ut = paths[0].value
+        gotb = {k.name: (v[0], v[1]) for k, v in bt.items()}
+        gotu = {k.name: v[0] for k, v in ut.items()}
+        for k, v in PY_BINARY.items():
+            if only is None or k in only:
+                chk.record(f"{tag}binary_table[{k}]=={v}", gotb.get(k) == v, f"source has {gotb.get(k)}", func=f"{EC}:binary_table")
+        if only is None:
+            for k, v in PY_UNARY.items():
+                chk.record(f"{tag}unary_table[{k}]=={v}", gotu.get(k) == v, f"source has {gotu.get(k)}", func=f"{EC}:unary_table")
+            chk.record(f"{tag}binary_table:no-extra-operators", set(gotb) == set(PY_BINARY), str(sorted(set(gotb) ^ set(PY_BINARY))), func=f"{EC}:binary_table")
+    else:
+        chk.undecided(f"{tag}operator-tables", str(paths[0].value if paths else "no path"))
+
 def run(chk):
     e = mk_engine(chk)
     B.install_models(e)
@@ -363,21 +390,7 @@ def run(chk):
     EC = "guppylang_internals.checker.expr_checker"
     e.func_info(EC, "ExprSynthesizer._synthesize_binary")
 
-    def t_tables(it):
-        m = e.module(EC)
-        return it.lookup_global(m, "binary_table"), it.lookup_global(m, "unary_table")
-    paths = e.explore(t_tables)
-    if paths and paths[0].kind == "return":
-        bt, ut = paths[0].value
-        gotb = {k.name: (v[0], v[1]) for k, v in bt.items()}
-        gotu = {k.name: v[0] for k, v in ut.items()}
-        for k, v in PY_BINARY.items():
-            chk.record(f"binary_table[{k}]=={v}", gotb.get(k) == v, f"source has {gotb.get(k)}", func=f"{EC}:binary_table")
-        for k, v in PY_UNARY.items():
-            chk.record(f"unary_table[{k}]=={v}", gotu.get(k) == v, f"source has {gotu.get(k)}", func=f"{EC}:unary_table")
-        chk.record("binary_table:no-extra-operators", set(gotb) == set(PY_BINARY), str(sorted(set(gotb) ^ set(PY_BINARY))), func=f"{EC}:binary_table")
-    else:
-        chk.undecided("operator-tables", str(paths[0].value if paths else "no path"))
+    operator_table_obligations(chk, e)
 
     for scenario in ("left-ok", "left-fails-right-ok", "both-fail", "left-missing-right-ok"):
         def thunk(it, scenario=scenario):
